@@ -114,6 +114,9 @@ func (o *ObjectSchema) IDUnenforced() bool {
 }
 
 func (o *ObjectSchema) ApplyNamespace(objects map[string]*ObjectSchema, namespace string) {
+	// An object built from a description decodes its defaults lazily; do it while linking so that an
+	// undecodable default is reported now (as a panic, like an unknown reference) instead of on the first use.
+	o.GetDefaults()
 	for _, property := range o.PropertiesValue {
 		property.ApplyNamespace(objects, namespace)
 	}
